@@ -63,7 +63,7 @@ SOURCES = {
 FORTRAN_FIELDS = ['surface', 'tr', 'material', 'density', 'inline']
 SINGLE = ['case', 'tabs', 'cont5', 'amp', 'ccomment', 'dollar', 'message',
           'numbers', 'shorthand', 'delims', 'nofinalnl', 'indent', 'blanks',
-          'rho-any']
+          'rho-any', 'extra-data']
 _PER = {'quick': 3, 'thorough': 120}
 _K = {'quick': 5, 'thorough': 10}
 
